@@ -66,6 +66,11 @@ theorem beta_FR (rN rO p : E) (a c : ℂ) : beta 𝒪 .FR rN rO p a c = a / c :=
 theorem beta_PRP (rN rO p : E) (a c : ℂ) :
     beta 𝒪 .PRP rN rO p a c = ⟪rN, rN - rO⟫ / ⟪rO, rO⟫ := rfl
 
+theorem beta_DY (rN rO p : E) (a c : ℂ) :
+    beta 𝒪 .DY rN rO p a c = ⟪rN, rN⟫ / ⟪p, rN - rO⟫ := rfl
+theorem beta_BAN (rN rO p : E) (a c : ℂ) :
+    beta 𝒪 .BAN rN rO p a c = ⟪rN, rN - rO⟫ / ⟪rO, rN - rO⟫ := rfl
+
 variable {B b}
 
 theorem CGInv.p_eq_zero (hB : SPD B) {s : CGState ℂ E} (h : CGInv B b s) (hr : s.r = 0) :
@@ -108,10 +113,27 @@ theorem beta_prp_eq_fr (hB : SPD B) {s : CGState ℂ E} (h : CGInv B b s) :
     h.rr]
   rfl
 
+/-- NOTE (outside the property, which covers FR and PRP only): on the invariant the Dai–Yuan
+coefficient as coded, `<r',r'> / <p, r'-r>`, is **minus** the Fletcher–Reeves one … -/
+theorem beta_dy_eq_neg_fr (hB : SPD B) {s : CGState ℂ E} (h : CGInv B b s) :
+    beta 𝒪 .DY (cgStep 𝒪 .FR B s).r s.r s.p (cgStep 𝒪 .FR B s).rr s.rr =
+      - beta 𝒪 .FR (cgStep 𝒪 .FR B s).r s.r s.p (cgStep 𝒪 .FR B s).rr s.rr := by
+  rw [beta_DY, beta_FR, inner_sub_right, cg_p_orth_next F Fb Ex R M hB .FR h, h.pr, zero_sub, div_neg,
+    cgStep_rr, h.rr]
+
+/-- … and so is the Bamigbola–Ali–Nwaeze one, `<r', r'-r> / <r, r'-r>` -/
+theorem beta_ban_eq_neg_fr (hB : SPD B) {s : CGState ℂ E} (h : CGInv B b s) :
+    beta 𝒪 .BAN (cgStep 𝒪 .FR B s).r s.r s.p (cgStep 𝒪 .FR B s).rr s.rr =
+      - beta 𝒪 .FR (cgStep 𝒪 .FR B s).r s.r s.p (cgStep 𝒪 .FR B s).rr s.rr := by
+  have h1 := cg_r_orth_next F Fb Ex R M hB .FR h
+  have h2 : ⟪s.r, (cgStep 𝒪 .FR B s).r⟫ = 0 := inner_eq_zero_symm.mp h1
+  rw [beta_BAN, beta_FR, inner_sub_right, inner_sub_right, h1, h2, sub_zero, zero_sub, div_neg,
+    cgStep_rr, h.rr]
+
 /-- **PRP = FR in exact arithmetic** (whole loop body) -/
 theorem prp_eq_fr (hB : SPD B) {s : CGState ℂ E} (h : CGInv B b s) :
     cgStep 𝒪 .PRP B s = cgStep 𝒪 .FR B s := by
-  refine CGState.ext' ?_ ?_ ?_ ?_
+  refine CGState.ext_fields ?_ ?_ ?_ ?_
   · rfl
   · rfl
   · rw [cgStep_p, cgStep_p, beta_prp_eq_fr F Fb Ex R M hB h]
